@@ -20,6 +20,7 @@ type gstate struct {
 	nrule int
 	ngarb int
 	built bool // some build has happened since the last change (for repeats)
+	listed []string // packages currently listed in WORKSPACE.caco3
 }
 
 const baseTime = int64(1700000000)
@@ -474,6 +475,7 @@ func history(r *hx.Rng, stream string, maxOps int) Case {
 	for i := 0; i < npk; i++ {
 		g.pkgs = append(g.pkgs, fmt.Sprintf("p%d", i))
 	}
+	g.listed = append([]string{}, g.pkgs...)
 	for _, p := range g.pkgs {
 		n := 2 + r.Intn(4)
 		for i := 0; i < n; i++ {
@@ -490,6 +492,9 @@ func history(r *hx.Rng, stream string, maxOps int) Case {
 	c := Case{Stream: stream, Pkgs: g.pkgs, Rules: copyRules(g.rules), Builder: "fresh"}
 	if r.Intn(2) == 0 { // one long-lived Builder (per configuration) for the whole history
 		c.Builder = "one"
+	}
+	if r.Intn(4) == 0 { // the Builders are made inside a package directory
+		c.Work = g.pkgs[r.Intn(len(g.pkgs))]
 	}
 	for _, n := range g.srcNames() {
 		c.Src = append(c.Src, g.src[n])
@@ -523,9 +528,21 @@ func history(r *hx.Rng, stream string, maxOps int) Case {
 			if op, ok := g.rulesOp(&oldRules); ok {
 				c.Ops = append(c.Ops, op)
 			}
-		default:
+		case k < 97:
 			if op, ok := g.tamperOp(); ok {
 				c.Ops = append(c.Ops, op)
+			}
+		case k < 99: // rm -rf out/
+			c.Ops = append(c.Ops, Op{K: "wipe", What: "wipe-out"})
+		default: // WORKSPACE.caco3 edited: a package leaves or all come back
+			if len(g.pkgs) > 1 {
+				if len(g.listed) < len(g.pkgs) {
+					g.listed = append([]string{}, g.pkgs...)
+				} else {
+					i := g.r.Intn(len(g.pkgs))
+					g.listed = append(append([]string{}, g.pkgs[:i]...), g.pkgs[i+1:]...)
+				}
+				c.Ops = append(c.Ops, Op{K: "pkgs", What: "workspace-edit", Pkgs: append([]string{}, g.listed...)})
 			}
 		}
 	}
@@ -736,6 +753,29 @@ func oneBuilderCorpus() []Case {
 		Op{K: "advance", What: "advance", Dt: 8 * 86400e9}, build("pkg/right"), build("pkg/both"),
 		Op{K: "build", Targets: []string{"pkg/left"}, Always: true}, build("pkg/left"),
 		set("pkg/a.txt", "a4\n", 22), Op{K: "build", Targets: []string{"pkg/right"}, Always: true}, build("pkg/both")))
+	// out/ removed wholesale (CACHE included) between Build calls on one Builder; in the middle of
+	// a run of builds of different targets; right after a failed build
+	wipe := Op{K: "wipe", What: "wipe-out"}
+	cs = append(cs, mk(rules, build("pkg/both"), wipe, build("pkg/left"), build("pkg/both"), build("pkg/both"),
+		set("pkg/a.txt", "a5\n", 30), wipe, build("pkg/right"), wipe, wipe, build("pkg/both")))
+	cs = append(cs, mk([]Rule{base, bun, top}, build("pkg/top"), wipe, build("pkg/top"), build("pkg/base"), wipe,
+		Op{K: "rules", What: "change-rule", Rules: []Rule{base, bun, topOK}}, build("pkg/top"), build("pkg/top")))
+	// WORKSPACE.caco3 edited (the harness replaces the Builder then): a package leaves the repo map
+	// and comes back; rules of an unlisted package are not declared, its files still are sources
+	{
+		q := Rule{K: "file_set", Dir: "q", Local: "qs", Name: "q/qs", Files: []string{"q/z.txt", "pkg/a.txt"}}
+		user := Rule{K: "bundle", Dir: "pkg", Local: "user", Name: "pkg/user", Deps: []string{"q/qs", "pkg/base"}}
+		lone := Rule{K: "file_set", Dir: "pkg", Local: "lone", Name: "pkg/lone", Files: []string{"q/z.txt"}}
+		c := Case{Stream: "corpus-one-builder", Builder: "one", Pkgs: []string{"pkg", "q"},
+			Rules: []Rule{base, q, user, lone},
+			Src:   append(append([]SrcFile{}, src...), file("q/z.txt", "zed\n", 4)),
+			Ops: []Op{build("pkg/user"), build("pkg/lone"),
+				{K: "pkgs", What: "workspace-edit", Pkgs: []string{"pkg"}}, build("pkg/user"), build("pkg/lone"), build("pkg/base"),
+				set("q/z.txt", "zed2\n", 40), build("pkg/lone"),
+				{K: "pkgs", What: "workspace-edit", Pkgs: []string{"pkg", "q"}}, build("pkg/user"), build("pkg/user"),
+				{K: "pkgs", What: "workspace-edit", Pkgs: []string{"q"}}, build("q/qs"), build("pkg/base")}}
+		cs = append(cs, c)
+	}
 	return cs
 }
 
@@ -753,6 +793,11 @@ func genCases(seed uint64, thorough bool) []Case {
 		cs = append(cs, c)
 	}
 	cs = append(cs, oneBuilderCorpus()...)
+	for _, c := range oneBuilderCorpus()[:3] { // ... and from inside the package directory
+		c.Work = "pkg"
+		c.Stream += "-workdir"
+		cs = append(cs, c)
+	}
 	n, maxOps := 320, 12
 	if thorough {
 		n, maxOps = 1500, 40
